@@ -47,6 +47,8 @@ var (
 	noPreConf    = func() (blockchain.PreConfirmedReader, error) { return nil, nil }
 	errRejected  = errors.New("prune engine: handler invocation rejected by the scheduler")
 	errTimeout   = errors.New("prune engine: timeout waiting for the pruner service")
+	// a failure of the REAL code while the initial world is prepared: an observation, not a harness problem
+	errOnRealCode = errors.New("real code failed on a valid chain")
 	bigBatch     = 96 * 1024 * 1024
 	minAge       = 50 * time.Hour
 	runStart     = time.Now()
@@ -413,7 +415,7 @@ func (w *world) calibrate() error {
 	}
 	fk := faultkv.Wrap(cp)
 	if _, _, err := pruner.PruneUpto(context.Background(), fk, 4, 1); err != nil {
-		return err
+		return fmt.Errorf("%w: PruneUpto(4) of a freshly built chain: %v", errOnRealCode, err)
 	}
 	// trace: batch(S0) batch(S1) batch(S2) batch(S3 without number-by-hash) batch(0) batch(range)
 	var sizes []int
